@@ -15,7 +15,7 @@ def tu_check(tu):
 
 def run(tier="quick", seed=0, use_cache=True):
     res = engine.Result("C16")
-    res.rules = ["LOCAL-REF", "CURSOR-HOLD", "SLOT-PAIR"]
+    res.rules = ["LOCAL-REF", "CURSOR-HOLD", "SLOT-PAIR", "RELEASE-ATTACHED"]
     res.explanation = (
         "Ownership dataflow (alias classes with an owned-reference count, "
         "NULL-ness refinement, out-parameter and returns-new-reference "
@@ -31,7 +31,15 @@ def run(tier="quick", seed=0, use_cache=True):
         "object-keyed / -valued family is followed by exactly one INCREF of "
         "that slot (copy) or none when the reference is taken over from the "
         "unused key slot 0 of a new sibling (move), before the slot is "
-        "overwritten or the function returns. Decides the local half of 'exactly one "
+        "overwritten or the function returns. RELEASE-ATTACHED: a key, value, "
+        "separator, child, successor or first-bucket slot of a Bucket / BTree "
+        "node is never released in place, and a reference loaded from such a "
+        "slot into a local is released only after the slot was overwritten, "
+        "shifted over (memmove) or cut off by a length store, or after the "
+        "whole array was detached from its node - because releasing an object "
+        "can run arbitrary code (finalizer, weak-reference callback) that looks "
+        "at the container (three accepted idioms: releases of nodes known to be "
+        "empty / to hold native data only, listed in the evidence). Decides the local half of 'exactly one "
         "reference per stored object / no leak on any path'; ownership of "
         "node fields across functions and out-of-bounds accesses need a "
         "sanitizer run and are not decided.")
@@ -60,11 +68,21 @@ def run(tier="quick", seed=0, use_cache=True):
     slot = sum(r["stats"]["slot_stores"] for r in out.values())
     res.floor("key/value slot copies in object families", slot, 100)
     res.count("SLOT-PAIR", slot)
+    res.floor("in-place slot release sites incl. accepted idioms (OO)", oo["slot_release_sites"], 3)
+    res.floor("releases of references taken out of a node slot (OO)", oo["slot_takeover_releases"], 3)
+    res.floor("loads from node slots into tracked locals (OO)", oo["slot_loads"], 40)
+    res.count("RELEASE-ATTACHED", sum(r["stats"]["slot_release_sites"] + r["stats"]["slot_takeover_releases"]
+                                      for r in out.values()))
+    acc = set()
+    for r in out.values():
+        acc |= set(r["stats"]["attached_accepted"])
+    res.extra["release_attached_accepted_idioms"] = sorted(acc)
     res.extra["cursor_accepted_idioms"] = oo["cursor"].get("accepted")
     res.extra["out_owned_summaries_OO"] = oo["out_owned"]
     res.samples = [
         {"rule": "LOCAL-REF", "obligation": "lowbucket (owned iff BTree_findRangeEnd returned > 0) is released on every exit of BTree_rangeSearch"},
         {"rule": "LOCAL-REF", "obligation": "args = Py_BuildValue(\"OO\", self, other) in bucket_sub is released after difference_m"},
+        {"rule": "RELEASE-ATTACHED", "obligation": "old_key = self->keys[i] in _bucket_set is released only after self->len-- / memmove removed the slot"},
         {"rule": "LOCAL-REF", "obligation": "iter == NULL never reaches Py_DECREF(iter) in update_from_seq"},
     ]
     return res
